@@ -105,6 +105,18 @@ class _SynthCtx(object):
     def line(self, ref):
         return self.m.read_line(self._q(ref))
 
+    # the Mapping conveniences of the accessor are reads like any other: a default is never substituted for a
+    # line or input that simply has not been produced yet
+    def line_get(self, ref, default):
+        return self.m.read_line(self._q(ref))
+
+    def inp_get(self, ref, default):
+        return self.m.read_input(self._q(ref))
+
+    def line_has(self, ref):
+        self.m.read_line(self._q(ref))
+        return True
+
     def notimpl(self):
         raise Unimpl()
 
